@@ -85,4 +85,44 @@ REGISTRY = {
         "level_note": "Trusted: Coq kernel/vm_compute, hand-written models (checked by correspondence), harness; user closures are universally quantified in the theorems and instantiated with collect/sum in the correspondence. No axioms.",
         "explanation": "C07_* proved; correspondence over real chains behind the real Start.",
     },
+    "C11": {
+        "corr": "C11",
+        "classes": {1: "F10"},
+        "trusted": [
+            "modelled: BinaryStartReceiver::select (decision list verbatim), SideReceiver (cache, cache_pointer, counters), process_side, and Start::next on top; each input channel is a FIFO queue, deliveries are followed by a drain",
+            "not modelled: receive time-outs (a timed-out first-message receive clears first_message: noted in DESIGN as a timing variant of F10), the flume select fairness (the driver keeps at most one batch in flight)",
+        ],
+        "assumptions": [
+            "delivery sequences are consumption orders (every delivered batch is readable by the operator when delivered); proved theorem: side input on the left, loop side with one replica; the symmetric case (cache on the right) is covered by the correspondence only",
+        ],
+        "level_text": "Proof: the two-input Start with a cached side is modelled verbatim; for every number of side-input replicas, every batching and every interleaving with the loop side's first round, and any number of rounds, the model's output satisfies the replay predicate (theorem C11_replay, loop side with one replica); with two loop-side replicas the statement is refuted by a concrete history (known finding F10). Tied to the code by driving the real Start::multiple with explicit delivery orders and comparing inside Coq.",
+        "level_note": "Trusted: Coq kernel/vm_compute, hand-written model (checked by correspondence), harness pacing (one batch in flight), flume FIFO. Known finding F10 is reported only when the faithful model reproduces it exactly. No axioms.",
+        "explanation": "C11_replay proved for all shapes with one loop replica; F10 witness for two.",
+    },
+    "C13": {
+        "corr": "C13",
+        "classes": {1: "F4"},
+        "trusted": [
+            "modelled: EventTimeWindowManager (alloc_windows with the skip-empty rule, feed, fire on watermark with the F5 fix, recycle), TransactionWindowManager, the keyed WindowOperator; a panic of the implementation is an explicit model state",
+            "HashMap iteration order abstracted (per-key comparison)",
+        ],
+        "assumptions": [
+            "event-time inputs respect the watermark contract (timestamped, above the last watermark); 0 < slide <= size",
+            "exactly-once / at-least-once coverage is proved for in-order arrivals with non-decreasing watermarks only (partial); the at-most bound, the interval property and the fire-time statements hold for every arrival order",
+        ],
+        "level_text": "Proof: event-time and transaction window managers are modelled verbatim; proved for all sizes/slides/inputs/accumulators: no panic on in-contract input, every result = one interval of one key in arrival order, at most ceil(size/slide) results per element, results fire exactly at the first watermark >= their end or at round end, transaction commits = the segments cut by the user logic. Coverage (exactly one / at least one) is proved for in-order arrivals (partial) and refuted in general by a concrete history (known finding F4). Tied to the code by running the real keyed window chain on generated scripts.",
+        "level_note": "Trusted: Coq kernel/vm_compute, hand-written model (checked by correspondence), harness. F4 is reported as KNOWN-FINDING only when the faithful model itself loses the element. No axioms.",
+        "explanation": "C13_* proved; F4 witness; correspondence over the real window chain.",
+    },
+    "C16": {
+        "corr": "C16",
+        "trusted": [
+            "modelled: consumer-side Start with a single producer, Map/Filter/FlatMap chains as compositions, Reorder (buffer, stable sort on watermark / round end)",
+            "assumed: glidesort sorts stably; a flume channel is FIFO; Batcher emits the producer's elements in order (C02)",
+        ],
+        "assumptions": ["reorder inputs are consistent with their watermarks (wm_safe)"],
+        "level_text": "Proof: a single producer's stream cut into arbitrary batches passes the consumer's Start unchanged (identity theorem); chains are compositions of element-wise operator semantics; reorder() output is sorted, a permutation of its input per round, released only when covered, stable for ties. Tied to the code by driving a real Start->map->filter->flat_map chain with one sender and arbitrary batch cuttings, and the real reorder chain with out-of-order scripts full of ties.",
+        "level_note": "Trusted: Coq kernel/vm_compute, hand-written model (checked by correspondence), harness. No axioms.",
+        "explanation": "C16_* proved; correspondence on sequential links and reorder.",
+    },
 }
